@@ -116,17 +116,13 @@ type RunResult struct {
 func inBuild(site string) bool { return strings.HasPrefix(site, "lib/j5schema/") }
 
 func installPermHook(permSeed uint64, refSalt uint64) {
-	simrt.SetPermHook(func(site string, n int) []int {
-		id, op, call, ok := simrt.CurrentTask()
+	simrt.SetPermHook(func(site string, n int, content uint64) []int {
+		id, op, _, ok := simrt.CurrentTask()
 		if !ok {
-			if refSalt == 0 {
-				return nil
-			}
-			// sequential reference executions get their own, different orders on purpose
-			return nil
+			return nil // sequential reference executions use the canonical order
 		}
-		p := simrt.NewRng(simrt.Derive(permSeed, uint64(id), uint64(op), uint64(call), simrt.HashString(site))).Perm(n)
-		return p
+		// a pure function of (seed, task, operation, site, collection): independent of the schedule
+		return simrt.NewRng(simrt.Derive(permSeed, uint64(id), uint64(op), simrt.HashString(site), content)).Perm(n)
 	})
 }
 
